@@ -312,15 +312,26 @@ Definition apply_tamper (r : rec (payload Z tentry)) (t : tamper) : rec (payload
                                 end) (rlist r) |}
   end.
 
+(* `pre` Silent validate() calls (same reset flag and scheme) on the same record
+   object before the observed one *)
+Fixpoint pre_validate (tb : tables) (r : tmrec) (reset : bool) (sch : option tscheme) (n : nat) : tmrec :=
+  match n with
+  | O => r
+  | S n' => match record_validate (table_sem tb) r (Some Silent) LgRoot reset sch with
+            | (_, Ok r1) => pre_validate tb r1 reset sch n'
+            | (_, Raise _) => r
+            end
+  end.
+
 Definition run_validate (rs : recspec) (vm : option mode) (reset : bool) (sch : option tscheme)
-           (tb : tables) (ts : list tamper) : sexp :=
+           (tb : tables) (ts : list tamper) (pre : nat) : sexp :=
   match run_from_line rs (Some Silent) tb with
   | (_, Ok r) =>
       if mrec_missing r then s_bad
       else
         let r' := {| mline := mline r; mcols := fold_left apply_tamper ts (mcols r);
                      merrs := merrs r; mmode := mmode r |} in
-        L [A 0; guard_mrec tb (record_validate (table_sem tb) r' vm LgRoot reset sch)]
+        L [A 0; guard_mrec tb (record_validate (table_sem tb) (pre_validate tb r' reset sch pre) vm LgRoot reset sch)]
   | (_, Raise e) => L [A 1; s_of_exn e]
   end.
 
@@ -503,14 +514,21 @@ Definition dispatch1 (s : sexp) : sexp :=
   | L [A 3; rs; vm; reset; sch; tb] =>
       match dec_recspec rs, as_mode_opt vm, as_bool reset, as_opt dec_scheme sch, dec_tables tb with
       | Some rs', Some vm', Some reset', Some sch', Some tb' =>
-          if spec_complete tb' rs' then run_validate rs' vm' reset' sch' tb' [] else s_bad
+          if spec_complete tb' rs' then run_validate rs' vm' reset' sch' tb' [] O else s_bad
       | _, _, _, _, _ => s_bad
       end
   | L [A 3; rs; vm; reset; sch; tb; ts] =>
       match dec_recspec rs, as_mode_opt vm, as_bool reset, as_opt dec_scheme sch, dec_tables tb,
             as_listof dec_tamper ts with
       | Some rs', Some vm', Some reset', Some sch', Some tb', Some ts' =>
-          if spec_complete tb' rs' then run_validate rs' vm' reset' sch' tb' ts' else s_bad
+          if spec_complete tb' rs' then run_validate rs' vm' reset' sch' tb' ts' O else s_bad
+      | _, _, _, _, _, _ => s_bad
+      end
+  | L [A 3; rs; vm; reset; sch; tb; ts; A pre] =>
+      match dec_recspec rs, as_mode_opt vm, as_bool reset, as_opt dec_scheme sch, dec_tables tb,
+            as_listof dec_tamper ts with
+      | Some rs', Some vm', Some reset', Some sch', Some tb', Some ts' =>
+          if spec_complete tb' rs' then run_validate rs' vm' reset' sch' tb' ts' (Z.to_nat pre) else s_bad
       | _, _, _, _, _, _ => s_bad
       end
   | L [A 4; m; hl; reg; tb; specs] =>
